@@ -294,7 +294,7 @@ Definition parse_or (fuel : nat) : parser ast := parse_or_with (parse_op fuel) f
 Definition parse_root (toks : list token) : res ast :=
   match toks with
   | TEOF :: _ => Ok SAll
-  | _ => match parse_or (List.length toks) toks with
+  | _ => match parse_or (S (List.length toks)) toks with   (* fuel: more than the number of tokens *)
          | Ok (a, [_]) => Ok a
          | Ok _ => Reject
          | Reject => Reject
@@ -368,7 +368,7 @@ Definition validate_or (fuel : nat) : parser unit := validate_or_with (validate_
 Definition validate_root (toks : list token) : res unit :=
   match toks with
   | TEOF :: _ => Ok tt
-  | _ => match validate_or (List.length toks) toks with
+  | _ => match validate_or (S (List.length toks)) toks with
          | Ok (_, [_]) => Ok tt
          | Ok _ => Reject
          | Reject => Reject
